@@ -1,1 +1,257 @@
-From TM Require Import Base.Prelude C14.Model C13.Model C13.Spec.
+(* C13 - proofs: scratch / dimension independence (from C14.Proofs), schedule independence of the
+   prange loop model, and the n_nearest selection rule for every sorting permutation. *)
+From TM Require Import Base.Prelude Base.PyList C14.Model C14.Spec C14.Lib C14.Proofs C13.Model C13.Spec.
+From Coq Require Import Permutation Sorting.Sorted.
+Open Scope Z_scope.
+
+(* ================================================================== scratch_independent *)
+(* for ALL initial contents of the per-thread scratch arrays the result rows of a query are equal *)
+Theorem scratch_independent t d q : WF (mkcall t d q) ->
+  forall s1 s2, snd (run_query t d q s1) = snd (run_query t d q s2).
+Proof. intros W s1 s2. apply rows_independent; exact W. Qed.
+
+(* ... and they do not depend on the dimensions the arrays were allocated with, i.e. on Q_max of the
+   co-processed queries or on n_cache *)
+Theorem dims_independent t q d1 d2 : WF (mkcall t d1 q) -> WF (mkcall t d2 q) ->
+  forall s1 s2, snd (run_query t d1 q s1) = snd (run_query t d2 q s2).
+Proof. intros W1 W2 s1 s2. apply rows_independent; assumption. Qed.
+
+(* ================================================================== schedule_independent *)
+Section Schedule.
+Variable sorter : list (Z * Z) -> list nat.
+Variables (t : tdata) (d : dims) (nn : option nat).
+Variable qs : list qdata.
+Hypothesis Wqs : forall q, In q qs -> WF (mkcall t d q).
+
+(* the result row of one query, as a function of the query alone *)
+Definition Fq (q : qdata) : list (rrow * nat) := select sorter nn (snd (run_query t d q scratch0)).
+
+Lemma step_out st ev : (fst ev < length qs)%nat ->
+  ts_out (step sorter t d nn qs st ev) = aset (ts_out st) (fst ev) (Some (Fq (nth (fst ev) qs dflt_q))).
+Proof.
+  intros H. unfold step. cbn [ts_out]. unfold Fq.
+  rewrite (scratch_independent t d (nth (fst ev) qs dflt_q) (Wqs _ (nth_In qs dflt_q H))
+             (ts_scr st (snd ev)) scratch0).
+  reflexivity.
+Qed.
+
+Lemma exec_out sched : forall st,
+  (forall ev, In ev sched -> (fst ev < length qs)%nat) ->
+  forall i, ts_out (exec sorter t d nn qs sched st) i
+            = if existsb (fun ev => Nat.eqb (fst ev) i) sched then Some (Fq (nth i qs dflt_q)) else ts_out st i.
+Proof.
+  unfold exec. induction sched as [|ev sched IH]; intros st Hr i; cbn [fold_left existsb]; [reflexivity|].
+  rewrite IH by (intros; apply Hr; right; assumption).
+  rewrite step_out by (apply Hr; left; reflexivity).
+  destruct (existsb (fun ev0 => Nat.eqb (fst ev0) i) sched) eqn:E.
+  - rewrite orb_true_r. reflexivity.
+  - rewrite orb_false_r. unfold aset. rewrite Nat.eqb_sym.
+    destruct (Nat.eqb_spec (fst ev) i) as [->|]; reflexivity.
+Qed.
+
+(* for every assignment of iterations to threads, every order, every initial scratch (and even if an
+   iteration is executed more than once): the result array is  map F queries *)
+Theorem schedule_independent sched scr :
+  (forall ev, In ev sched -> (fst ev < length qs)%nat) ->
+  (forall i, (i < length qs)%nat -> In i (map fst sched)) ->
+  tomtom_out sorter t d nn qs sched scr = map (fun q => Some (Fq q)) qs.
+Proof.
+  intros Hr Hc. unfold tomtom_out.
+  apply nth_ext with (d := None) (d' := None); [rewrite !map_length, seq_length; reflexivity|].
+  rewrite map_length, seq_length. intros i Hi.
+  rewrite nth_map_seq_gen by exact Hi. cbn [Nat.add].
+  rewrite exec_out by exact Hr.
+  assert (existsb (fun ev => Nat.eqb (fst ev) i) sched = true) as ->.
+  { apply existsb_exists. specialize (Hc i Hi). apply in_map_iff in Hc as [ev [E Hin]].
+    exists ev. split; [exact Hin|]. apply Nat.eqb_eq. exact E. }
+  rewrite nth_indep with (d' := (fun q => Some (Fq q)) dflt_q) by (rewrite map_length; exact Hi).
+  rewrite (map_nth (fun q => Some (Fq q))). reflexivity.
+Qed.
+End Schedule.
+
+(* subsets, permutations and duplications of a query pool commute with the result: position k of a call
+   on the queries  pool[idxs[0]], pool[idxs[1]], ...  (whatever its Q_max, schedule, scratch) holds the
+   row that pool query idxs[k] gets in any other call *)
+Theorem coprocessing_independent sorter t nn (pool : list qdata) (idxs : list nat) (d1 d2 : dims) sched scr :
+  (forall q, In q pool -> WF (mkcall t d1 q) /\ WF (mkcall t d2 q)) ->
+  (forall i, In i idxs -> (i < length pool)%nat) ->
+  let qs := map (fun i => nth i pool dflt_q) idxs in
+  (forall ev, In ev sched -> (fst ev < length qs)%nat) ->
+  (forall k, (k < length qs)%nat -> In k (map fst sched)) ->
+  tomtom_out sorter t d2 nn qs sched scr
+  = map (fun i => Some (Fq sorter t d1 nn (nth i pool dflt_q))) idxs.
+Proof.
+  intros HW Hidx qs Hr Hc.
+  assert (Wqs : forall q, In q qs -> WF (mkcall t d2 q)).
+  { intros q Hq. unfold qs in Hq. apply in_map_iff in Hq as [i [<- Hi]].
+    apply HW. apply nth_In. apply Hidx. exact Hi. }
+  rewrite (schedule_independent sorter t d2 nn qs Wqs sched scr Hr Hc).
+  unfold qs. rewrite map_map. apply map_ext_in. intros i Hi. f_equal. unfold Fq. f_equal.
+  destruct (HW (nth i pool dflt_q) (nth_In pool dflt_q (Hidx i Hi))) as [W1 W2].
+  apply dims_independent; assumption.
+Qed.
+
+(* ================================================================== n_nearest *)
+Lemma ple_trans a b c : 0 < snd a -> 0 < snd b -> 0 < snd c ->
+  ple a b = true -> ple b c = true -> ple a c = true.
+Proof.
+  unfold ple. intros Ha Hb Hc H1 H2. apply Z.leb_le in H1, H2. apply Z.leb_le.
+  apply (Z.mul_le_mono_pos_r _ _ (snd b) Hb).
+  transitivity (fst b * snd a * snd c).
+  - replace (fst a * snd c * snd b) with (fst a * snd b * snd c) by ring.
+    apply Z.mul_le_mono_nonneg_r; [lia|exact H1].
+  - replace (fst b * snd a * snd c) with (fst b * snd c * snd a) by ring.
+    replace (fst c * snd a * snd b) with (fst c * snd b * snd a) by ring.
+    apply Z.mul_le_mono_nonneg_r; [lia|exact H2].
+Qed.
+Lemma ple_total a b : ple a b = false -> ple b a = true.
+Proof. unfold ple. intros H. apply Z.leb_gt in H. apply Z.leb_le. lia. Qed.
+
+Lemma in_firstn {T} (x : T) n l : In x (firstn n l) -> In x l.
+Proof. intros H. rewrite <- (firstn_skipn n l). apply in_or_app. left; exact H. Qed.
+
+Section Sorting.
+Variable key : nat -> Z * Z.
+Hypothesis key_pos : forall i, 0 < snd (key i).
+Definition kle (a b : nat) : Prop := ple (key a) (key b) = true.
+
+Lemma ins_perm i l : Permutation (i :: l) (ins_idx key i l).
+Proof.
+  induction l as [|j l IH]; cbn [ins_idx]; [reflexivity|].
+  destruct (ple (key j) (key i)); [|reflexivity].
+  etransitivity; [apply perm_swap|]. constructor. exact IH.
+Qed.
+Lemma ins_sorted i l : StronglySorted kle l -> StronglySorted kle (ins_idx key i l).
+Proof.
+  induction l as [|j l IH]; intros H; cbn [ins_idx].
+  - constructor; constructor.
+  - apply StronglySorted_inv in H as [Hs Hf].
+    destruct (ple (key j) (key i)) eqn:E.
+    + constructor; [apply IH; exact Hs|].
+      apply (Permutation_Forall (ins_perm i l)). constructor; [exact E|exact Hf].
+    + apply ple_total in E. constructor; [constructor; assumption|].
+      constructor; [exact E|]. apply Forall_forall. intros x Hx.
+      rewrite Forall_forall in Hf. specialize (Hf x Hx). unfold kle in *.
+      apply (ple_trans _ (key j)); auto.
+Qed.
+Lemma argsort_fold_perm l : forall acc,
+  Permutation (l ++ acc) (fold_left (fun acc i => ins_idx key i acc) l acc).
+Proof.
+  induction l as [|x l IH]; intros acc; cbn [fold_left app]; [reflexivity|].
+  etransitivity; [|apply IH]. etransitivity; [apply Permutation_middle|].
+  apply Permutation_app_head. apply ins_perm.
+Qed.
+Lemma argsort_fold_sorted l : forall acc, StronglySorted kle acc ->
+  StronglySorted kle (fold_left (fun acc i => ins_idx key i acc) l acc).
+Proof.
+  induction l as [|x l IH]; intros acc H; cbn [fold_left]; [exact H|]. apply IH. apply ins_sorted. exact H.
+Qed.
+
+(* what numpy.argsort is assumed to return: a permutation of 0..len-1 along which the keys ascend *)
+Definition sorting_perm (len : nat) (perm : list nat) : Prop :=
+  Permutation perm (seq 0 len) /\ StronglySorted kle perm.
+
+Lemma SS_app_cross {T} (R : T -> T -> Prop) l1 : forall l2, StronglySorted R (l1 ++ l2) ->
+  forall x y, In x l1 -> In y l2 -> R x y.
+Proof.
+  induction l1 as [|a l1 IH]; intros l2 H x y Hx Hy; [destruct Hx|].
+  cbn [app] in H. apply StronglySorted_inv in H as [Hs Hf].
+  destruct Hx as [->|Hx].
+  - rewrite Forall_forall in Hf. apply Hf. apply in_or_app. right; exact Hy.
+  - apply (IH l2 Hs x y Hx Hy).
+Qed.
+Lemma SS_app_l {T} (R : T -> T -> Prop) l1 : forall l2, StronglySorted R (l1 ++ l2) -> StronglySorted R l1.
+Proof.
+  induction l1 as [|a l1 IH]; intros l2 H; [constructor|].
+  cbn [app] in H. apply StronglySorted_inv in H as [Hs Hf]. constructor; [apply (IH l2 Hs)|].
+  rewrite Forall_forall in *. intros x Hx. apply Hf. apply in_or_app. left; exact Hx.
+Qed.
+
+Section TopN.
+Variables (len n : nat) (perm : list nat).
+Hypothesis Hsp : sorting_perm len perm.
+Hypothesis Hn : (n <= len)%nat.
+Let sel := firstn n perm.
+
+Lemma perm_length : length perm = len.
+Proof. destruct Hsp as [Hp _]. rewrite (Permutation_length Hp), seq_length. reflexivity. Qed.
+Lemma sel_length : length sel = n.
+Proof. unfold sel. rewrite firstn_length, perm_length. lia. Qed.
+Lemma sel_range x : In x sel -> (x < len)%nat.
+Proof.
+  intros H. unfold sel in H. apply in_firstn in H. destruct Hsp as [Hp _].
+  apply (Permutation_in _ Hp) in H. apply in_seq in H. lia.
+Qed.
+Lemma sel_nodup : NoDup sel.
+Proof.
+  destruct Hsp as [Hp _]. assert (NoDup perm) as Hnd.
+  { apply (Permutation_NoDup (Permutation_sym Hp)). apply seq_NoDup. }
+  rewrite <- (firstn_skipn n perm) in Hnd. apply NoDup_app_remove_r in Hnd. exact Hnd.
+Qed.
+Lemma sel_sorted : StronglySorted kle sel.
+Proof.
+  destruct Hsp as [_ Hs]. rewrite <- (firstn_skipn n perm) in Hs. apply SS_app_l in Hs. exact Hs.
+Qed.
+(* nothing left out is smaller than anything kept *)
+Lemma sel_cutoff t x : (t < len)%nat -> ~ In t sel -> In x sel -> kle x t.
+Proof.
+  intros Ht Hnot Hx. destruct Hsp as [Hp Hs].
+  assert (In t perm) as Hin by (apply (Permutation_in _ (Permutation_sym Hp)); apply in_seq; lia).
+  rewrite <- (firstn_skipn n perm) in Hin, Hs. apply in_app_or in Hin as [Hin|Hin]; [contradiction|].
+  apply (SS_app_cross kle _ _ Hs x t Hx Hin).
+Qed.
+End TopN.
+End Sorting.
+
+Lemma argsort_sorting (ps : list (Z * Z)) : (forall p, In p ps -> 0 < snd p) ->
+  sorting_perm (fun i => nth i ps (0, 1)) (length ps) (argsort ps).
+Proof.
+  intros Hpos.
+  assert (Hk : forall i, 0 < snd (nth i ps (0, 1))).
+  { intros i. destruct (Nat.lt_ge_cases i (length ps)) as [H|H].
+    - apply Hpos. apply nth_In. exact H.
+    - rewrite nth_overflow by exact H. cbn. lia. }
+  unfold argsort, sorting_perm. split.
+  - symmetry. rewrite <- (app_nil_r (seq 0 (length ps))) at 1. apply argsort_fold_perm.
+  - apply argsort_fold_sorted; [exact Hk|constructor].
+Qed.
+
+(* n_nearest_spec (on the model's rows): for EVERY sorting permutation that argsort may return, the
+   output is the n smallest p-values of the full row, ascending, with their fields and indices *)
+Theorem n_nearest_spec (rows : list rrow) (perm : list nat) (n : nat) :
+  let key := fun i => nth i (map r_p rows) (0, 1) in
+  (forall r, In r rows -> 0 < snd (r_p r)) ->
+  sorting_perm key (length rows) perm -> (n <= length rows)%nat ->
+  let out := gather rows (firstn n perm) in
+  length out = n /\
+  (forall ri, In ri out -> (snd ri < length rows)%nat /\ fst ri = nth (snd ri) rows dflt_rrow) /\
+  StronglySorted (fun a b => ple (r_p (fst a)) (r_p (fst b)) = true) out /\
+  NoDup (map snd out) /\
+  (forall t ri, (t < length rows)%nat -> ~ In t (map snd out) -> In ri out ->
+                ple (r_p (fst ri)) (r_p (nth t rows dflt_rrow)) = true).
+Proof.
+  intros key Hpos Hsp Hn out.
+  assert (Hkey : forall i, (i < length rows)%nat -> key i = r_p (nth i rows dflt_rrow)).
+  { intros i Hi. unfold key. rewrite nth_indep with (d' := r_p dflt_rrow) by (rewrite map_length; exact Hi).
+    apply map_nth. }
+  assert (Hsnd : map snd out = firstn n perm).
+  { unfold out, gather. rewrite map_map. cbn [snd]. apply map_id. }
+  split; [|split; [|split; [|split]]].
+  - unfold out, gather. rewrite map_length. apply (sel_length key (length rows) n perm Hsp Hn).
+  - intros ri Hin. unfold out, gather in Hin. apply in_map_iff in Hin as [i [<- Hi]]. cbn [fst snd].
+    split; [apply (sel_range key (length rows) n perm Hsp i Hi)|reflexivity].
+  - unfold out, gather.
+    pose proof (sel_sorted key (length rows) n perm Hsp) as Hs.
+    assert (Hr : forall x, In x (firstn n perm) -> (x < length rows)%nat)
+      by (intros; apply (sel_range key (length rows) n perm Hsp); assumption).
+    revert Hs Hr. generalize (firstn n perm) as l. induction l as [|a l IH]; intros Hs Hr; cbn [map]; [constructor|].
+    apply StronglySorted_inv in Hs as [Hs Hf]. constructor.
+    + apply IH; [exact Hs|intros; apply Hr; right; assumption].
+    + rewrite Forall_forall in *. intros ri Hin. apply in_map_iff in Hin as [b [<- Hb]]. cbn [fst].
+      specialize (Hf b Hb). unfold kle in Hf. rewrite !Hkey in Hf; [exact Hf| |]; apply Hr; [right|left]; auto.
+  - rewrite Hsnd. apply (sel_nodup key (length rows) n perm Hsp).
+  - intros tt ri Ht Hnot Hin. rewrite Hsnd in Hnot.
+    unfold out, gather in Hin. apply in_map_iff in Hin as [i [<- Hi]]. cbn [fst].
+    pose proof (sel_cutoff key (length rows) n perm Hsp tt i Ht Hnot Hi) as Hc. unfold kle in Hc.
+    rewrite !Hkey in Hc; [exact Hc|exact Ht|]. apply (sel_range key (length rows) n perm Hsp i Hi).
+Qed.
